@@ -843,6 +843,14 @@ def eq(a, b):
         if is_op(x, 'GETITEM') and is_op(x[2], 'SEC') and x[3] == const(0) and is_const(y) and isinstance(y[1], int) \
                 and is_const(x[2][3]) and y[1] not in ((2, 3) if x[2][3][1] else (4,)):
             return FALSE
+    # a piece of canonical hex text never equals a text with a character that is no lower-case hex digit
+    for x, y in ((a, b), (b, a)):
+        if is_const(y) and isinstance(y[1], str) and set(y[1]) - set('0123456789abcdef'):
+            z = x
+            while is_op(z) and z[1] in ('SLICE', 'LOWER', 'STRIP', 'LSTRIP', 'RSTRIP'):
+                z = z[2]
+            if is_op(z, 'HEX') and z is not x or is_op(x, 'HEX'):
+                return FALSE
     # a truth value compared with a boolean constant is itself or its negation
     for x, y in ((a, b), (b, a)):
         if y in (TRUE, FALSE) and type_of(x) == 'bool':
@@ -1138,6 +1146,9 @@ def is_(a, b):
 def len_(t):
     if is_op(t, 'BARR'):
         t = t[2]
+    if is_op(t, 'SPLIT') and len(t) == 4 and is_const(t[3]) and isinstance(t[3][1], str) and len(t[3][1]) >= 1:
+        # the number of pieces of s.split(sep) is one more than the number of separators
+        return add(const(1), ('op', 'COUNT', t[2], t[3]))
     n = length_of(t)
     if n is not None:
         return const(n)
